@@ -1,6 +1,6 @@
 (* Model.RepoInv: the well-formedness invariant of the repo manager state (definitions only).
    Stated once here because C02, C03, C04 and C12 assume or re-establish it. *)
-From DV Require Import Base.Prelude Model.Repo.
+From DV Require Import Base.Prelude Gen.RepoFacts Model.Repo.
 From Coq Require Import String Ascii.
 From stdpp Require Import gmap strings.
 Local Open Scope string_scope.
@@ -29,7 +29,7 @@ Record repo_wf (r : repo) : Prop := {
       r_nodes r !! c1 = Some n1 -> r_nodes r !! c2 = Some n2 ->
       n_parents n1 = [v] -> n_parents n2 = [v] -> n_branch n1 = n_branch n2 -> c1 = c2;
   (* "master" is only ever the label of the empty branch name *)
-  wf_no_master : forall v n, r_nodes r !! v = Some n -> n_branch n <> "master";
+  wf_no_master : forall v n, r_nodes r !! v = Some n -> n_branch n <> s_master_label;
   (* root UUIDs are well-formed (they prefix the keys of the branch head cache) *)
   wf_root_len : String.length (r_root r) = 32%nat
 }.
